@@ -152,8 +152,6 @@ export function splitProgram(prog, rng, { collide = false } = {}) {
       if (collision && (collision.original === n || collision.as === n) && style === "reexport") style = "renamed";
       // an `extends` clause takes an identifier (beff: ExtendsShouldBeIdent; import types are not TypeScript there)
       if (inExtends.has(n) && (style === "namespace" || style === "importType")) style = "renamed";
-      // import("./f").G<Args>: beff resolves Args in the imported file (known finding C09-import-type-arguments, kept in its probe)
-      if (style === "importType" && (decl.params || []).length) style = "named";
       let source = g;
       let importedName = exportedName;
       if (style === "barrel") {
@@ -336,4 +334,61 @@ export function counterpart(prog, lost) {
     decls: prog.decls.map((d) => (per.has(d.name) ? renameDecl(d, per.get(d.name)) : d)),
     parsers: prog.parsers.map((p) => (per.has("<parsers>") ? { ...p, t: renameIn(p.t, per.get("<parsers>")) } : p)),
   };
+}
+
+// ---- how beff walks export tables (model used to ATTRIBUTE a rejected split project, never to judge it)
+// Parses the export statements this module writes and follows a name the way the compiler does:
+// a module's own entries first, then its `export *` targets depth-first (first hit wins, files
+// already being searched are skipped). Returns "found", "missing" or "cycle" (the chain of named
+// re-exports comes back to an entry it is already resolving: TypeScript skips such a circular
+// candidate and keeps searching the other `export *` targets, beff reports the name as unresolvable).
+export function exportWalk(files, startFile, startName) {
+  const resolveSpec = (from, spec) => {
+    const base = path.posix.normalize(path.posix.join(path.posix.dirname(from), spec));
+    for (const c of [base + ".ts", base + ".tsx", base + ".d.ts", base + "/index.ts", base === "." ? "index.ts" : null]) if (c && Object.prototype.hasOwnProperty.call(files, c)) return c;
+    return null;
+  };
+  const table = (f) => {
+    const own = new Map(); // exported name -> {local:true} | {file, name}
+    const stars = [];
+    for (const line of files[f].split("\n")) {
+      let m;
+      if ((m = /^export \* from "([^"]+)";/.exec(line))) {
+        const t = resolveSpec(f, m[1]);
+        if (t) stars.push(t);
+      } else if ((m = /^export \{ (\w+)(?: as (\w+))? \} from "([^"]+)";/.exec(line))) {
+        const t = resolveSpec(f, m[3]);
+        if (t && !own.has(m[2] || m[1])) own.set(m[2] || m[1], { file: t, name: m[1] });
+      } else if ((m = /^export (?:declare )?(?:type|interface|enum|const) (\w+)/.exec(line))) own.set(m[1], { local: true });
+    }
+    return { own, stars };
+  };
+  const tables = new Map();
+  const T = (f) => tables.get(f) || (tables.set(f, table(f)), tables.get(f));
+  const lookup = (f, name, following) => {
+    const t = T(f);
+    if (t.own.has(name)) return t.own.get(name);
+    for (const g of t.stars) {
+      if (following.includes(g)) continue;
+      following.push(g);
+      const r = lookup(g, name, following);
+      if (r) return r;
+    }
+    return null;
+  };
+  const visiting = new Set();
+  let file = startFile,
+    name = startName;
+  for (let i = 0; i < 100; i++) {
+    const key = file + "::" + name;
+    if (visiting.has(key)) return "cycle";
+    visiting.add(key);
+    if (!Object.prototype.hasOwnProperty.call(files, file)) return "missing";
+    const e = lookup(file, name, []);
+    if (!e) return "missing";
+    if (e.local) return "found";
+    file = e.file;
+    name = e.name;
+  }
+  return "cycle";
 }
